@@ -91,7 +91,7 @@ func nextLetters(e *env, maxCands int, maxVersion uint64) []L {
 		}
 		// commit one version ahead of finalization (child of the single candidate)
 		if len(sc) == 1 && m.ncommits[v] == 1 && v+1 <= maxVersion && m.ncommits[v+1] < maxCands {
-			for _, b := range []string{"add", "mod"} {
+			for _, b := range []string{"add2", "mod"} {
 				out = append(out, L{Op: "commit", V: v + 1, Batch: b})
 			}
 		}
